@@ -216,11 +216,11 @@ Definition contrib_dot (tr : list triple) (sval : nat -> Qc) : assoc :=
 Definition contrib_idx (tr : list triple) (sval : nat -> Qc) : assoc :=
   fold_left (fun a e => let '(w, s, t) := e in (t, sval s * w) :: a) tr [].
 
-(* model switches of proposed repairs (flipped to true when the repair lands in /repo; read by harness/c04.py):
+(* model switches of the repairs D85 (= D32) and D86 (= D21), both landed in /repo (f88ba52): true.  Read by harness/c04.py:
    fixed_D32: the indexed branch broadcasts a single source unit instead of indexing a scalar
    fixed_D21: a right-hand side of size one is broadcast to the shape of a vectorized state variable *)
-Definition fixed_D32 : bool := false.
-Definition fixed_D21 : bool := false.
+Definition fixed_D32 : bool := true.
+Definition fixed_D21 : bool := true.
 
 Definition contrib (f32 : bool) (tsize ssize : nat) (m : mrg) (sval : nat -> Qc) : option assoc :=
   let tr := zip3 (mw m) (ms m) (mt m) in
